@@ -163,7 +163,7 @@ def rule_validate_before_acting(ctx, r):
                     if isinstance(callee, FuncInfo):
                         _v, effs, _u = res.reach(callee)
                         for e in effs:
-                            if e.kind in ACTING or (e.kind == "FS_WRITE" and e.finfo.key not in STATE_WRITERS):
+                            if e.kind in ACTING or (e.kind == "FS_WRITE" and e.finfo.key not in STATE_WRITERS and not any(c in STATE_WRITERS for c in e.chain)):
                                 bad = (c, e)
                 for e in res.node_effects(c, root):
                     if e.kind in ACTING or e.kind == "FS_WRITE":
@@ -223,7 +223,10 @@ def rule_depth(ctx, r):
                             for callee in res.callees(c, f, {}):
                                 if isinstance(callee, FuncInfo) and (callee.key == f.key or reaches(callee.key, f.key)):
                                     along = (n, c)
-        con = f"{f.module.relpath}::{f.qual}"
+        top = f
+        while top.outer is not None:
+            top = top.outer
+        con = f"{f.module.relpath}::{top.qual}::<recursion along dependency edges>" if top is not f else f"{f.module.relpath}::{f.qual}"
         if along is None:
             r.ok(con, "recursive, but not along dependency edges (bounded by container nesting)", f.where)
         elif f.key in reach_cmd or (f.outer is not None and f.outer.key in reach_cmd) or f.key.startswith(f"{CORE}:check_for_circular"):
@@ -237,8 +240,9 @@ def rule_depth(ctx, r):
 
 
 def run(ctx):
-    r1 = ctx.rule("R1", "the three validators run on every path of graph construction and raise the error kind that applies", min_instances=9)
-    rule_validators(ctx, r1)
+    r1 = ctx.rule("R1", "the three validators run on every path of graph construction and raise the error kind that applies", min_instances=1)
+    from .c03 import graph_witness_summary
+    ctx.structural_or_witness(r1, rule_validators, lambda: graph_witness_summary(ctx), "src/gwf/core.py::Graph.from_targets::validation")
     r2 = ctx.rule("R2", "duplicate producers are detected across spellings (normalisation, shared with C03)", min_instances=3)
     rule_norm_path(ctx, r2)
     r3 = ctx.rule("R3", "every command validates the workflow before it submits, cancels, deletes or touches anything", min_instances=6)
